@@ -30,12 +30,26 @@ func (db *DB) rotateMem(n int, wait bool) (*memDB, error) {
 	if err := zzFail(); err != nil {
 		return nil, err
 	}
-	// contract on success: the old buffer is frozen/flushed, a fresh one is current
+	// contract on success (wait=true): the old buffer has been flushed, a fresh one is current
 	db.mem = &memDB{db: db, DB: memdb.New(db.s.icmp, 64), ref: 1}
+	if wait {
+		db.frozenMem = nil
+	}
 	return db.mem, nil
 }
 
 func (db *DB) waitCompaction() error { return zzFail() }
+
+// compTriggerWait(mcompCmdC): on success every pending write-buffer flush is done
+func (db *DB) compTriggerWait(compC chan<- cCmd) error {
+	if err := zzFail(); err != nil {
+		return err
+	}
+	db.memMu.Lock()
+	db.frozenMem = nil
+	db.memMu.Unlock()
+	return nil
+}
 
 func (tr *Transaction) flush() error {
 	if err := zzFail(); err != nil {
@@ -170,4 +184,62 @@ func ZZ_C09_bigwrite() {
 func ZZ_C09_witness() {
 	ZZ_C09_transaction()
 	vpAssert(false, "witness")
+}
+
+
+// C11-open (also C04-seqnum): a transaction fixes its sequence number only
+// when no unflushed write buffer is left behind it — otherwise the sequence
+// number it records in the manifest overtakes journal records that recovery
+// would then drop.
+func ZZ_C11_open() {
+	db := zzMkDB()
+	if vpChoose(2) == 1 {
+		db.mem.Put(makeInternalKey(nil, []byte("a"), 1, keyTypeVal), []byte("x"))
+	}
+	if vpChoose(2) == 1 {
+		fm := memdb.New(db.s.icmp, 64)
+		fm.Put(makeInternalKey(nil, []byte("b"), 2, keyTypeVal), []byte("y"))
+		db.frozenMem = &memDB{db: db, DB: fm, ref: 1}
+	}
+	tr, err := db.OpenTransaction()
+	if err != nil {
+		zzCheckReleased(db, "open-failed")
+		return
+	}
+	vpAssert(db.frozenMem == nil && db.mem.Len() == 0, "no-unflushed-buffer-behind-transaction")
+	vpAssert(tr.seq == db.seq, "transaction-starts-at-db-sequence")
+}
+
+// C11-put: records get consecutive sequence numbers after the transaction's
+// start, in order; the DB's own sequence is untouched until commit.
+func ZZ_C11_put() {
+	db := zzMkDB()
+	tr, err := db.OpenTransaction()
+	if err != nil {
+		return
+	}
+	seq0 := db.seq
+	n := 1 + vpChoose(3)
+	var keys [][]byte
+	for i := 0; i < n; i++ {
+		k := []byte{vpNondetU8()}
+		var e error
+		if vpChoose(2) == 0 {
+			e = tr.Put(k, []byte{vpNondetU8()}, nil)
+		} else {
+			e = tr.Delete(k, nil)
+		}
+		vpAssert(e == nil, "tr-write-ok")
+		keys = append(keys, k)
+		vpAssert(tr.seq == seq0+uint64(i+1), "tr-seq-advances-by-one")
+		vpAssert(db.seq == seq0, "db-seq-untouched-while-open")
+		// the record just written carries exactly that sequence number
+		ik := makeInternalKey(nil, k, tr.seq, keyTypeSeek)
+		rk, _, ferr := tr.mem.Find(ik)
+		vpAssert(ferr == nil, "tr-record-in-buffer")
+		u, s, _, perr := parseInternalKey(rk)
+		vpAssert(perr == nil && vpEqBytes(u, k) && s == tr.seq, "tr-record-has-next-sequence")
+	}
+	tr.Discard()
+	vpAssert(db.seq == seq0, "discard-leaves-sequence")
 }
